@@ -577,3 +577,46 @@ def cms_image(s, b, off):
 def mode_of(s):
     """the query mode a sketch object answers with: 'min', 'mean' or 'mean-min'"""
     return s.query_type
+
+
+def file_bytes(path):
+    """content of the file at a (resolved) path"""
+    return open(path, "rb").read()
+
+
+def file_exists(path):
+    import os
+    return os.path.exists(path)
+
+
+def disk_footer_ok(b):
+    """b is a well-formed Bloom export: footer with a usable geometry, exactly bloom_length cells before it"""
+    n = len(b)
+    return (n >= 20 and le_bytes(b, n - 20, 8) >= 1 and 0 < f32_at(b, n - 4) < 1
+            and bloom_k(le_bytes(b, n - 20, 8), bloom_m(le_bytes(b, n - 20, 8), f32_at(b, n - 4))) >= 1
+            and bloom_m(le_bytes(b, n - 20, 8), f32_at(b, n - 4)) < 2**53
+            and n == 20 + cdiv(bloom_m(le_bytes(b, n - 20, 8), f32_at(b, n - 4)), 8))
+
+
+def resolve(path):
+    import pathlib
+    return pathlib.Path(path).expanduser().resolve()
+
+
+def file_ok(s, b0, done):
+    """C11 every-point invariant of the mapped file of an on-disk filter: same size, the footer's
+    estimated_elements and rate never change, cells only gain bits, the recorded count is either the count the
+    file held when the operation started (`done`) or the filter's current count"""
+    n = s._bloom_length
+    return (len(s._bloom) == len(b0)
+            and all(s._bloom[i] == b0[i] for i in range(n, n + 8))
+            and all(s._bloom[i] == b0[i] for i in range(n + 16, n + 20))
+            and all(implies(bit(b0, k), bit(s._bloom, k)) for k in range(0, 8 * n))
+            and (le_bytes(s._bloom, n + 8, 8) == done or le_bytes(s._bloom, n + 8, 8) == s._els_added))
+
+
+def disk_consistent(s):
+    """the mapped file of an on-disk filter carries the filter's own parameters in its footer"""
+    n = s._bloom_length
+    return (inv_bloom_disk(s) and geo_bloom(s) and s._num_bits < 2**53
+            and le_bytes(s._bloom, n, 8) == s._est_elements and f32_at(s._bloom, n + 16) == s._fpr)
